@@ -340,7 +340,11 @@ static cfg_opt_t *cfg_getopt_secidx(cfg_t *cfg, const char *name,
 			return NULL;
 
 		name += len;
-		name += strspn(name, "|");
+		len = strspn(name, "|");
+		/* the path of a section does not end in a separator */
+		if (index && len && !name[len])
+			return NULL;
+		name += len;
 	}
 
 	if (!index) {
